@@ -76,14 +76,17 @@ class C11(Prop):
             q |= {(a + b) / 2 for a, b in zip(xs, xs[1:])} | {a + (b - a) / 4 for a, b in zip(xs, xs[1:])}
             perm = list(range(n))
             rng.shuffle(perm)
-            yield {"stream": "fit", "f": f, "level": lv, "inc": rng.random() < 0.5, "X": [str(v) for v in X],
+            xdt = "float64"
+            if all(v.denominator == 1 for v in X) and rng.random() < 0.4:
+                xdt = rng.choice(["float32", "int32", "int64"])
+            yield {"stream": "fit", "f": f, "level": lv, "inc": rng.random() < 0.5, "xdtype": xdt, "X": [str(v) for v in X],
                    "y": [str(v) for v in ys], "w": None if w is None else [str(v) for v in w],
                    "q": [str(v) for v in sorted(q)], "perm": perm}
 
     def impl(self, case):
         from model_diagnostics._utils.isotonic import IsotonicRegression
 
-        X = np.array([float(Fraction(v)) for v in case["X"]])
+        X = np.array([float(Fraction(v)) for v in case["X"]]).astype(case.get("xdtype", "float64"))
         y = np.array([float(Fraction(v)) for v in case["y"]])
         w = None if case.get("w") is None else np.array([float(Fraction(v)) for v in case["w"]])
         q = np.array([float(Fraction(v)) for v in case["q"]])
@@ -203,8 +206,9 @@ class C11(Prop):
             if (inc and p1 > p2 + tol * scale) or (not inc and p1 < p2 - tol * scale):
                 return f"predictions not monotone in the fitted direction between {float(q1)} and {float(q2)}: {p1!r}, {p2!r}"
         if "skl" in io:
+            stol = 1e-5 if case.get("xdtype") == "float32" else 1e-9  # scikit-learn computes in the dtype of X
             for q, u, v in zip(case["q"], pr, io["skl"]):
-                if not close(u, v, 1e-9, 1e-9):
+                if not close(u, v, stol, stol):
                     return f"mean model differs from scikit-learn's clipped isotonic regression at {q}: {u!r} vs {v!r}"
         return None
 
